@@ -55,6 +55,9 @@ pub fn gen(tier: &str, seed: u64) -> Vec<String> {
         ("(defvirtualkeys v0 y)\n(defsrc a b)\n(deflayer l0 (on-idle-fakekey v0 tap 50) b)\n", vec![1, 10, 49, 50, 51, 200]),
         ("(defsrc a b)\n(deflayer l0 (mwheel-up 20 120) b)\n", vec![1, 10, 19, 20, 21, 100]),
         ("(defsrc a b)\n(deflayer l0 (movemouse-up 20 1) b)\n", vec![1, 10, 19, 20, 21, 100]),
+        ("(defsrc a b)\n(deflayer l0 (mwheel-left 20 120) b)\n", vec![1, 10, 19, 20, 21, 100]),
+        ("(defsrc a b)\n(deflayer l0 (mwheel-right 20 120) (mwheel-down 30 120))\n", vec![1, 10, 19, 20, 21, 100]),
+        ("(defsrc a b)\n(deflayer l0 (movemouse-left 20 1) (movemouse-down 30 1))\n", vec![1, 10, 19, 20, 21, 100]),
         ("(defsrc a b)\n(deflayer l0 (switch () (tap-hold 0 20 x y) fallthrough () (tap-hold 0 60 z w) break) b)\n", vec![1, 19, 20, 21, 30, 59, 60, 61, 200]),
         ("(defsrc a b)\n(deflayer l0 (switch ((key-timing 1 lt 100)) x break () y break) a)\n", vec![1, 50, 99, 100, 101, 300]),
         ("(defsrc a b c)\n(deflayer l0 (tap-hold 0 50 x y) (tap-hold 0 80 z w) c)\n", vec![1, 10, 49, 50, 79, 80, 81, 200]),
